@@ -78,6 +78,10 @@ def _texture(ctx, pydrex, case):
     Pr, Gr, Rr = pgr_ref(A, row)
     ctx.check("pgr_equals_reference", max(abs(P - Pr), abs(G - Gr), abs(R - Rr)) <= 1e-9, case, PGR=[P, G, R], ref=[Pr, Gr, Rr])
     mean = np.asarray(dg.bingham_average(A, axis=axis))
+    if n <= 50:
+        mean_l = np.asarray(dg.bingham_average([a for a in A], axis=axis))
+        ev_ = np.linalg.eigvalsh(scatter(A, row))
+        ctx.check("bingham_list_input_equivalent", bool(abs(abs(float(mean_l @ mean)) - 1) <= 1e-9 or (ev_[2] - ev_[1]) < 1e-9 * max(ev_[2], 1e-300)), case)
     Sm = scatter(A, row)
     lam, vec = np.linalg.eigh(Sm)
     gap = (lam[2] - lam[1]) / max(lam[2], 1e-300)
